@@ -26,8 +26,9 @@
                    released - although its command is still with the controller; the late
                    response then goes to whoever is pending by then, or is dropped.
 
-   The semaphore is abstracted to a boolean (held / free); which waiting caller obtains a free
-   semaphore is left to the schedule (asyncio wakes them in FIFO order: one of the schedules).
+   The semaphore is its counter of free permits (1 initially; a stray release can make it 2);
+   which waiting caller obtains a free permit is left to the schedule (asyncio hands it over in
+   FIFO order: one of the schedules), `locked()` is "no permit or somebody queued" as in CPython.
    A label that is not enabled leaves the state unchanged. *)
 From Coq Require Import ZArith List Bool.
 Import ListNotations.
@@ -41,7 +42,7 @@ Definition event := (bool * Z * Z)%type.
 
 Record hstate := mkH {
   h_callers : list caller;
-  h_sem : bool;                    (* command_semaphore is held *)
+  h_sem : Z;                       (* command_semaphore._value: free permits (1 = free, 0 = held) *)
   h_pending : option (Z * Z);      (* pending_command / pending_response exist: (caller, opcode) *)
   h_resp : option (Z * Z);         (* result set on pending_response: (command_opcode, credits) *)
   h_to : list Z;                   (* host -> controller: opcodes of commands in flight *)
@@ -62,7 +63,7 @@ Inductive label :=
 (* what an observer at the HCI boundary / at the awaitables sees *)
 Inductive obs := Sent (c op : Z) | Resumed (c op : Z) | AssertFailed (c : Z) | WasCancelled (c : Z).
 
-Definition h_init : hstate := mkH [] false None None [] [] false.
+Definition h_init : hstate := mkH [] 1 None None [] [] false.
 
 Definition is_wait_sem (x : caller) : bool := match c_phase x with WaitSem => true | _ => false end.
 Definition has_id (c : Z) (x : caller) : bool := Z.eqb (c_id x) c.
@@ -79,8 +80,10 @@ Definition with_callers (s : hstate) l := mkH l (h_sem s) (h_pending s) (h_resp 
 Definition with_sem (s : hstate) b := mkH (h_callers s) b (h_pending s) (h_resp s) (h_to s) (h_from s) (h_err s).
 
 (* `if event.num_hci_command_packets and self.command_semaphore.locked(): release()` *)
+(* Semaphore.locked(): no free permit, or somebody is queued *)
+Definition locked (s : hstate) : bool := Z.leb (h_sem s) 0 || existsb is_wait_sem (h_callers s).
 Definition release_if (s : hstate) (n : Z) : hstate :=
-  if negb (Z.eqb n 0) && h_sem s then with_sem s false else s.
+  if negb (Z.eqb n 0) && locked s then with_sem s (h_sem s + 1) else s.
 
 Definition step_opt (s : hstate) (l : label) : option (hstate * list obs) :=
   match l with
@@ -88,18 +91,18 @@ Definition step_opt (s : hstate) (l : label) : option (hstate * list obs) :=
       if known c (h_callers s) then None
       else Some (with_callers s (h_callers s ++ [mkCaller c op WaitSem]), [])
   | Acquire c =>
-      if h_sem s then None else
+      if Z.leb (h_sem s) 0 then None else
       match find_waiting c (h_callers s) with
       | None => None
       | Some x =>
           match h_pending s, h_resp s with
           | None, None =>
-              Some (mkH (set_phase c WaitResp (h_callers s)) true (Some (c, c_op x)) None
+              Some (mkH (set_phase c WaitResp (h_callers s)) (h_sem s - 1) (Some (c, c_op x)) None
                         (h_to s ++ [c_op x]) (h_from s) (h_err s), [Sent c (c_op x)])
           | _, _ =>
               (* `assert self.pending_command is None` fails before the try block:
                  the semaphore stays held *)
-              Some (mkH (set_phase c Failed (h_callers s)) true (h_pending s) (h_resp s)
+              Some (mkH (set_phase c Failed (h_callers s)) (h_sem s - 1) (h_pending s) (h_resp s)
                         (h_to s) (h_from s) (h_err s), [AssertFailed c])
           end
       end
@@ -139,7 +142,7 @@ Definition step_opt (s : hstate) (l : label) : option (hstate * list obs) :=
       | Some (c', _) =>
           if Z.eqb c' c then
             (* the owner: `finally` with response = None *)
-            Some (mkH (set_phase c Cancelled (h_callers s)) false None None (h_to s) (h_from s) (h_err s),
+            Some (mkH (set_phase c Cancelled (h_callers s)) (h_sem s + 1) None None (h_to s) (h_from s) (h_err s),
                   [WasCancelled c])
           else
             match find_waiting c (h_callers s) with
@@ -225,7 +228,7 @@ Definition quiescent (s : hstate) : bool :=
   | [], [] =>
       match h_pending s, h_resp s with
       | Some _, Some _ => false
-      | _, _ => h_sem s || negb (existsb is_wait_sem (h_callers s))
+      | _, _ => Z.leb (h_sem s) 0 || negb (existsb is_wait_sem (h_callers s))
       end
   | _, _ => false
   end.
